@@ -631,10 +631,27 @@ impl DecoderContextBuilder {
 //@end
 }
 //@item! stun_rs :: mod context > struct MessageDecoderBuilder
+// #[derive(Default)] of the decoder and of its builder: no context (the decoder then applies the ordering rule and nothing else)
+impl Default for MessageDecoder {
+//@item stun_rs :: mod context > impl ::core::default::Default for MessageDecoder > fn default
+//@tags C18 C09 C19
+//@sub "ctx: ::core::default::Default::default()" => "ctx: None"
+//@spec
+    ensures r.ctx is None,
+//@end
+}
+impl Default for MessageDecoderBuilder {
+//@item stun_rs :: mod context > impl ::core::default::Default for MessageDecoderBuilder > fn default
+//@tags C18 C09 C19
+//@sub "::core::default::Default::default()" => "MessageDecoder::default()"
+//@spec
+    ensures r.0.ctx is None,
+//@end
+}
 impl MessageDecoderBuilder {
 //@item stun_rs :: mod context > impl MessageDecoderBuilder > fn with_context
 //@tags C18 C19
-//@rules R5
+//@rules R5?
 //@spec
     ensures r.0.ctx == Some(ctx),
 //@end
